@@ -37,6 +37,12 @@ impl OrphanBroker {
     }
 
     fn search_orphan_leader(&self, leader_hash: ParentHash) {
+        // read is_pending_verify BEFORE the status (as process_lonely_block does): the verify
+        // thread publishes the snapshot that carries the block's status first and removes the
+        // block from is_pending_verify afterwards; read the other way round, a leader verified
+        // in between is seen as neither stored nor pending and its descendants stay parked
+        // until some later block runs this search again
+        let leader_is_pending_verify = self.is_pending_verify.contains(&leader_hash);
         let leader_status = self.shared.get_block_status(&leader_hash);
 
         if leader_status.eq(&BlockStatus::BLOCK_INVALID) {
@@ -49,7 +55,6 @@ impl OrphanBroker {
             return;
         }
 
-        let leader_is_pending_verify = self.is_pending_verify.contains(&leader_hash);
         if !leader_is_pending_verify && !leader_status.contains(BlockStatus::BLOCK_STORED) {
             trace!(
                 "orphan leader: {} not stored {:?} and not in is_pending_verify: {}",
